@@ -10,6 +10,7 @@
 extern "C" {
 #endif
 
+#ifndef __DISPATCH_SHIMS_ATOMIC__   /* drivers that include the library's internal.h already have it */
 struct dispatch_verif_site_s {
 	const char *dvs_expr;
 	const char *dvs_func;
@@ -19,6 +20,7 @@ struct dispatch_verif_site_s {
 	int dvs_class;
 	void *dvs_cookie;
 };
+#endif
 
 enum { VRT_ATOMIC = 0, VRT_PROBE = 1, VRT_API = 2, VRT_MARK = 3 };
 
@@ -42,13 +44,21 @@ typedef void (*vrt_projector_t)(FILE *, const vrt_rec_t *);
 
 /* perturb: 0 none, 1 light (yields), 2 medium (yields+short sleeps), 3 heavy (adds long stalls) */
 void vrt_init(const char *outpath, uint64_t seed, int perturb);
-void vrt_add_class(const char *expr_substr, int cls);   /* cls > 0 */
+/* cls > 0.  Classes below VRT_CLASS_ANY are recorded only on registered address ranges; classes
+ * >= VRT_CLASS_ANY are recorded on ANY address (obj = -1 unless registered; use r->addr to tell
+ * objects apart, e.g. map addresses to small ids in your projector) - for words that live in
+ * objects the library allocates internally (dispatch_apply_t, continuations, block private data). */
+#define VRT_CLASS_ANY 100
+void vrt_add_class(const char *expr_substr, int cls);
 int  vrt_register(const void *base, size_t len, int kind);
 void vrt_unregister_all(void);
 void vrt_set_projector(vrt_projector_t fn);
 void vrt_set_probe_filter(int on);   /* 1: probes only on registered objects (default); 0: all */
 /* API-level events, logged atomically with the global order */
-void vrt_api(const char *name, int obj, long a, long b, long c);
+uint64_t vrt_api(const char *name, int obj, long a, long b, long c); /* returns the global sequence number */
+long vrt_ktid(int vtid);          /* kernel tid of a runtime thread id */
+int vrt_tid_of_ktid(long ktid);
+int vrt_nthreads(void);
 void vrt_mark(const char *name, long a, long b, long c); /* Reset markers etc. */
 int  vrt_tid(void);
 uint64_t vrt_seq(void);
